@@ -556,6 +556,9 @@ def gen_programs(rng, tier):
     thorough = tier != "quick"
 
     def emit(ps, kind):
+        if is_simple(ps):          # one traversal: the plain line and observation format
+            out.append((progs_line(ps), {"kind": kind, "want": want_obs(ps[0][0], ps[0][1])[0]}))
+            return
         outs, _ = ref_progs(ps)
         out.append((progs_line(ps), {"kind": kind, "want": progs_obs(outs)}))
     # systematic: a nested traversal at every call position of small outer trees
